@@ -571,7 +571,7 @@ PINS_FOR = {
     'C13': ['determine_helicity', 'convert_to_spline'], 'C12': ['r_singularity_selection'], 'C14': ['to_Fourier', 'get_boundary', 'convert_to_spline'],
     'C15': ['to_vmec', 'to_Fourier'], 'C05': ['spectral_diff_matrix', 'determine_helicity', 'fourier_minimum'],
     'C06': ['spectral_diff_matrix', 'determine_helicity', 'fourier_minimum', 'fourier_interpolation'], 'C07': ['spectral_diff_matrix', 'determine_helicity', 'fourier_minimum'],
-    'C03': ['spectral_diff_matrix', 'fourier_minimum'], 'C08': ['fourier_minimum'], 'C09': ['fourier_minimum'], 'C18': ['spectral_diff_matrix', 'fourier_interpolation', 'fourier_minimum'],
+    'C03': ['spectral_diff_matrix', 'fourier_minimum'], 'C08': ['fourier_minimum'], 'C09': ['fourier_minimum'], 'C18': ['spectral_diff_matrix', 'fourier_interpolation', 'fourier_minimum', 'determine_helicity'],
 }
 # checks whose obligations do not read the translated formula programs (object / effect / kernel models): the in-Coq float evaluation of the programs is not part of them
 NO_FLOAT_TIE = {'C16', 'C17', 'C20'}
